@@ -151,8 +151,8 @@ Print Assumptions C20_delete_if_exists_errno_filter.
 
 Theorem C20_ensure_tree_already_done :
   forall (W H K : Type) (rt : runtime W H) (key : bytes -> K) (look : K -> W -> option node)
-         (fd_key : Z -> W -> option K) (tmpdir : bytes) (wlimit : Z),
-  fs_contract rt key look fd_key tmpdir wlimit ->
+         (fd_key : Z -> W -> option K) (tmpdir : bytes),
+  fs_contract rt key look fd_key tmpdir ->
   forall path mode w, look (key path) w = Some NDir -> ensure_tree rt path mode w = (w, OOk tt).
 Proof. exact (@ensure_tree_already_done). Qed.
 Print Assumptions C20_ensure_tree_already_done.
@@ -160,8 +160,8 @@ Print Assumptions C20_ensure_tree_already_done.
 (* a regular FILE at the path: EEXIST is re-raised *)
 Theorem C20_ensure_tree_file_in_the_way :
   forall (W H K : Type) (rt : runtime W H) (key : bytes -> K) (look : K -> W -> option node)
-         (fd_key : Z -> W -> option K) (tmpdir : bytes) (wlimit : Z),
-  fs_contract rt key look fd_key tmpdir wlimit ->
+         (fd_key : Z -> W -> option K) (tmpdir : bytes),
+  fs_contract rt key look fd_key tmpdir ->
   forall path mode w c, look (key path) w = Some (NFile c) ->
     ensure_tree rt path mode w = (w, OErr errno_EEXIST).
 Proof. exact (@ensure_tree_file_in_the_way). Qed.
@@ -169,8 +169,8 @@ Print Assumptions C20_ensure_tree_file_in_the_way.
 
 Theorem C20_ensure_tree_post_and_idempotent :
   forall (W H K : Type) (rt : runtime W H) (key : bytes -> K) (look : K -> W -> option node)
-         (fd_key : Z -> W -> option K) (tmpdir : bytes) (wlimit : Z),
-  fs_contract rt key look fd_key tmpdir wlimit ->
+         (fd_key : Z -> W -> option K) (tmpdir : bytes),
+  fs_contract rt key look fd_key tmpdir ->
   forall path mode w w', ensure_tree rt path mode w = (w', OOk tt) ->
     (look (key path) w' = Some NDir /\ (forall k n, look k w = Some n -> look k w' = Some n)) /\
     ensure_tree rt path mode w' = (w', OOk tt).
@@ -179,8 +179,8 @@ Print Assumptions C20_ensure_tree_post_and_idempotent.
 
 Theorem C20_delete_if_exists_post_and_idempotent :
   forall (W H K : Type) (rt : runtime W H) (key : bytes -> K) (look : K -> W -> option node)
-         (fd_key : Z -> W -> option K) (tmpdir : bytes) (wlimit : Z),
-  fs_contract rt key look fd_key tmpdir wlimit ->
+         (fd_key : Z -> W -> option K) (tmpdir : bytes),
+  fs_contract rt key look fd_key tmpdir ->
   forall path w w', delete_if_exists path (rt_unlink rt) w = (w', OOk tt) ->
     (look (key path) w' = None /\ (forall k, k <> key path -> look k w' = look k w)) /\
     delete_if_exists path (rt_unlink rt) w' = (w', OOk tt).
@@ -189,25 +189,17 @@ Print Assumptions C20_delete_if_exists_post_and_idempotent.
 
 (* ------------------------------------------------------------------ write_to_tempfile *)
 
-(* The statement without a bound on the content is FALSE for the code as written: os.write is
-   called once and its return value is ignored, so a content that does not fit one write(2)
-   (Linux: more than 0x7ffff000 = 2147479552 bytes, [max_rw_count]) is silently truncated.
-   Known finding C20-W1; zone on the input: [zone_write_limit content = true]. *)
-Theorem C20_write_to_tempfile_full_refuted : ~ write_to_tempfile_full_statement.
-Proof. exact write_to_tempfile_full_refuted. Qed.
-Print Assumptions C20_write_to_tempfile_full_refuted.
-
-(* Outside that zone (content within [wlimit], the per-call limit of write(2)) — whenever a
-   name is returned: it did not exist before; it now holds exactly the content; it lies in the
-   requested (or default) directory with the prefix and suffix passed through; a non-empty path
-   is a directory afterwards and was made one by ensure_tree before mkstemp ran; everything
-   that existed is unchanged. *)
+(* Whenever a name is returned — for EVERY content, however short the individual writes of
+   the runtime are (contract: a write of a non-empty buffer transfers at least one byte): the
+   name did not exist before; it now holds exactly the content; it lies in the requested (or
+   default) directory with the prefix and suffix passed through; a non-empty path is a
+   directory afterwards and was made one by ensure_tree before mkstemp ran; everything that
+   existed is unchanged.  (Repaired defect C20-W1: one os.write, return value ignored.) *)
 Theorem C20_write_to_tempfile_spec :
   forall (W H K : Type) (rt : runtime W H) (key : bytes -> K) (look : K -> W -> option node)
-         (fd_key : Z -> W -> option K) (tmpdir : bytes) (wlimit : Z),
-  fs_contract rt key look fd_key tmpdir wlimit ->
+         (fd_key : Z -> W -> option K) (tmpdir : bytes),
+  fs_contract rt key look fd_key tmpdir ->
   forall content path suffix prefix w w' name,
-  zlen content <= wlimit ->
   write_to_tempfile rt content path suffix prefix w = (w', OOk name) ->
   look (key name) w = None /\
   look (key name) w' = Some (NFile content) /\
@@ -223,10 +215,9 @@ Print Assumptions C20_write_to_tempfile_spec.
 (* it returns a name whenever the directory phase and mkstemp succeed ... *)
 Theorem C20_write_to_tempfile_succeeds :
   forall (W H K : Type) (rt : runtime W H) (key : bytes -> K) (look : K -> W -> option node)
-         (fd_key : Z -> W -> option K) (tmpdir : bytes) (wlimit : Z),
-  fs_contract rt key look fd_key tmpdir wlimit ->
+         (fd_key : Z -> W -> option K) (tmpdir : bytes),
+  fs_contract rt key look fd_key tmpdir ->
   forall content path suffix prefix w w1 w2 fd name,
-  zlen content <= wlimit ->
   (match path with
    | Some p => if nonempty p then ensure_tree rt p default_mode w else (w, OOk tt)
    | None => (w, OOk tt) end) = (w1, OOk tt) ->
@@ -234,6 +225,17 @@ Theorem C20_write_to_tempfile_succeeds :
   exists w', write_to_tempfile rt content path suffix prefix w = (w', OOk name).
 Proof. exact (@write_to_tempfile_succeeds). Qed.
 Print Assumptions C20_write_to_tempfile_succeeds.
+
+(* the write loop as written never exhausts its fuel (the default of [write_all] is
+   unreachable), given only the progress clause of the contract *)
+Theorem C20_write_loop_total :
+  forall (W H K : Type) (rt : runtime W H) (key : bytes -> K) (look : K -> W -> option node)
+         (fd_key : Z -> W -> option K) (tmpdir : bytes),
+  fs_contract rt key look fd_key tmpdir ->
+  forall fd content w,
+    exists r, write_loop rt (S (length content)) fd content w = Some r /\ write_all rt fd content w = r.
+Proof. exact (@write_all_not_default). Qed.
+Print Assumptions C20_write_loop_total.
 
 (* ... and an error of ensure_tree is re-raised before any file is created *)
 Theorem C20_write_to_tempfile_ensure_error :
@@ -251,7 +253,13 @@ Print Assumptions C20_write_to_tempfile_ensure_error.
 (* The concrete runtime that the correspondence check validates against the real file system
    (Model/C20_FS.v) satisfies both contracts, for every world: the theorems above are not
    vacuous and apply to it.  Concrete evaluated instances: Examples ex_* in Proofs/C20_FS.v. *)
+(* ... for ANY positive per-call limit of write(2) (Linux: 0x7ffff000) *)
+Theorem C20_contracts_satisfiable_any_write_limit :
+  forall limit : Z, 0 < limit -> fs_contract (fs_runtime_lim limit) fs_key fs_look fs_fd_key fs_tmpdir.
+Proof. exact fs_lim_satisfies_contract. Qed.
+Print Assumptions C20_contracts_satisfiable_any_write_limit.
+
 Theorem C20_contracts_satisfiable :
-  hash_contract fs_runtime /\ fs_contract fs_runtime fs_key fs_look fs_fd_key fs_tmpdir max_rw_count.
+  hash_contract fs_runtime /\ fs_contract fs_runtime fs_key fs_look fs_fd_key fs_tmpdir.
 Proof. exact (conj cat_hash_contract fs_satisfies_contract). Qed.
 Print Assumptions C20_contracts_satisfiable.
